@@ -39,6 +39,9 @@ func isMathInt(t types.Type) bool {
 // zV is a verif.Z: an unbounded specification integer.
 type zV struct{ t *Term }
 
+// goFunc is a function value implemented by the engine (e.g. the write function returned by CacheContext).
+type goFunc func(st *State, args []value) value
+
 type opaque struct {
 	tag  string
 	id   int
